@@ -6,7 +6,7 @@ import math
 import numpy as np
 
 PROP = "C20"
-CASES = {"quick": 400, "thorough": 6000}
+CASES = {"quick": 400, "thorough": 40000}
 CASE_TIMEOUT = 120
 REQUIRED = ["instances:GridWorld", "instances:WindyGridWorld", "instances:CliffWalking", "instances:Tiger",
             "instances:LoadUnload", "instances:HeavenOrHell", "transitions_checked", "gridworld_physics_checked",
